@@ -192,6 +192,89 @@ def scan():
     return sites
 
 
+MUTATORS = {"append", "extend", "insert", "pop", "popitem", "remove", "clear", "update", "setdefault", "add", "discard", "sort", "reverse", "appendleft"}
+CONTAINER_CTORS = {"dict", "list", "set", "defaultdict", "OrderedDict", "deque", "Counter"}
+MEMO_DECORATORS = {"lru_cache", "cache"}
+
+
+def scan_hidden_state():
+    """S6: places where a result could depend on what was calculated EARLIER in the same interpreter: module-level containers that some
+    function mutates, `global` declarations, memoising decorators, attributes stored on functions. Returns site dicts like scan()."""
+    mods = [(m, ast.parse(p.read_text())) for m, p in package_modules()]
+    # every mutation pattern `NAME[...] = `, `NAME.mutator(...)`, `del NAME[...]`, `NAME op= ...`, `global NAME` inside any function of the package
+    mutated = {}
+    for modname, tree in mods:
+        for fname, fnode in _functions(tree):
+            for n in ast.walk(fnode):
+                tg = []
+                if isinstance(n, (ast.Assign, ast.AugAssign, ast.AnnAssign, ast.Delete)):
+                    tg = n.targets if isinstance(n, (ast.Assign, ast.Delete)) else [n.target]
+                for t in tg:
+                    root = t
+                    sub = False
+                    while isinstance(root, (ast.Subscript, ast.Attribute)):
+                        sub = True
+                        root = root.value
+                    if isinstance(root, ast.Name) and sub:
+                        mutated.setdefault(root.id, []).append(f"{modname}:{fname}:{n.lineno}")
+                if isinstance(n, ast.Call) and isinstance(n.func, ast.Attribute) and n.func.attr in MUTATORS and isinstance(n.func.value, ast.Name):
+                    mutated.setdefault(n.func.value.id, []).append(f"{modname}:{fname}:{n.lineno}")
+                if isinstance(n, ast.Global):
+                    for nm in n.names:
+                        mutated.setdefault(nm, []).append(f"{modname}:{fname}:{n.lineno} (global)")
+    sites = []
+    for modname, tree in mods:
+        fnames = {f for f, _ in _functions(tree)}
+        for n in tree.body:
+            if isinstance(n, (ast.Assign, ast.AnnAssign)):
+                tgs = n.targets if isinstance(n, ast.Assign) else [n.target]
+                v = n.value
+                is_cont = isinstance(v, (ast.Dict, ast.List, ast.Set, ast.DictComp, ast.ListComp, ast.SetComp)) or (
+                    isinstance(v, ast.Call) and _dotted(v.func).split(".")[-1] in CONTAINER_CTORS)
+                for t in tgs:
+                    if isinstance(t, ast.Name) and is_cont and not (t.id.startswith("__") and t.id.endswith("__")):
+                        # local names of functions shadow module names: only mutations in functions that do not assign the bare name count
+                        hits = []
+                        for h in mutated.get(t.id, []):
+                            hm, hf = h.split(":")[0], h.split(":")[1]
+                            fnode = next((fn for mm, tr in mods if mm == hm for f2, fn in _functions(tr) if f2 == hf), None)
+                            local = fnode is not None and any(isinstance(x, ast.Name) and x.id == t.id and isinstance(x.ctx, ast.Store) for x in ast.walk(fnode)) \
+                                and "(global)" not in h
+                            param = fnode is not None and any(a.arg == t.id for a in ast.walk(fnode) if isinstance(a, ast.arg))
+                            if not local and not param:
+                                hits.append(h)
+                        sites.append(dict(kind="S6-hidden-state", module=modname, function="<module>", line=n.lineno, text=f"{t.id} = {type(v).__name__}",
+                                          disposition=None if hits else "read-only table (no function of the package mutates it)",
+                                          detail=("module-level container mutated in " + ", ".join(hits[:3])) if hits else ""))
+        for fname, fnode in _functions(tree):
+            for n in ast.walk(fnode):
+                if isinstance(n, ast.Global):
+                    sites.append(dict(kind="S6-hidden-state", module=modname, function=fname, line=n.lineno, text="global " + ", ".join(n.names), disposition=None,
+                                      detail="function rebinds module-level state"))
+                if isinstance(n, (ast.FunctionDef, ast.AsyncFunctionDef)):
+                    for d in n.decorator_list:
+                        dn = _dotted(d.func if isinstance(d, ast.Call) else d).split(".")[-1]
+                        if dn in MEMO_DECORATORS:
+                            sites.append(dict(kind="S6-hidden-state", module=modname, function=fname, line=n.lineno, text=f"@{dn} {n.name}", disposition=None,
+                                              detail="memoised function: results of earlier calls are kept"))
+                        if dn == "cached_property":
+                            cls = fname.split(".")[0]
+                            cnode = next((c for c in tree.body if isinstance(c, ast.ClassDef) and c.name == cls), None)
+                            reads = {x.attr for x in ast.walk(n) if isinstance(x, ast.Attribute) and isinstance(x.value, ast.Name) and x.value.id == "self"}
+                            fields = {b.target.id for b in (cnode.body if cnode else []) if isinstance(b, ast.AnnAssign) and isinstance(b.target, ast.Name)}
+                            props = {m.name for m in (cnode.body if cnode else []) if isinstance(m, ast.FunctionDef)}
+                            ok = cnode is not None and reads <= (fields | props)
+                            sites.append(dict(kind="S6-hidden-state", module=modname, function=fname, line=n.lineno, text=f"@cached_property {n.name}",
+                                              disposition="derived constant: depends only on the fields / other derived constants of its own parameter object" if ok else None,
+                                              detail="cached on the instance"))
+                if isinstance(n, ast.Assign):
+                    for t in n.targets:
+                        if isinstance(t, ast.Attribute) and isinstance(t.value, ast.Name) and t.value.id in fnames:
+                            sites.append(dict(kind="S6-hidden-state", module=modname, function=fname, line=n.lineno, text=_dotted(t), disposition=None,
+                                              detail="state stored on a function object"))
+    return sites
+
+
 def _is_set_expr(n):
     if isinstance(n, (ast.Set, ast.SetComp)):
         return True
@@ -1090,7 +1173,7 @@ EMPTY_BOUNDED = {"eminus.minimizer", "eminus.band_minimizer"}
 
 class Inventory:
     def __call__(self, ob, tier, seed):
-        sites = scan()
+        sites = scan() + scan_hidden_state()
         from pycv.framework import REGISTRY
 
         open_sites, rows = [], []
@@ -1174,6 +1257,69 @@ class PoisonBroad:
 
 register(Obligation(name="C20.poison.broad", prop=PROP, engine="B", bounded=True, run=PoisonBroad(), functions=["eminus.dft:*", "eminus.gga:*", "eminus.localizer:*", "eminus.tools:*", "eminus.io.*"],
                     budget={"quick": 400, "thorough": 900}, doc="bounded: no result of a broad native scenario contains NaN when every xp.empty allocation is poisoned"))
+
+
+class PoisonDiff:
+    """BOUNDED: two runs whose xp.empty / empty_like allocations are pre-filled with two different junk patterns (floats and integers) must agree
+    bit for bit in energies, orbitals, the whole-object JSON files and every array member of the SCF / GTH / Atoms objects."""
+
+    def both(self):
+        a = run_scenario("poison:diff", timeout=900, extra=dict(fill="A"))
+        b = run_scenario("poison:diff", timeout=900, extra=dict(fill="B"))
+        return a, b
+
+    def __call__(self, ob, tier, seed):
+        a, b = self.both()
+        if a.get("crash") or b.get("crash"):
+            return Result(UNDECIDED, backend="native-poison", detail=f"scenario crashed: {(a.get('stderr') or b.get('stderr') or '')[-300:]}")
+        d = compare_runs(a, b, bitwise=True)
+        if d:
+            return Result(REFUTED, backend="native-poison", witness=dict(scenario="poison:diff"), replayed=True, replay_info=dict(differences=d[:8]),
+                          detail=f"the content of freshly allocated (uninitialised) memory reaches {[x[0] for x in d[:6]]}")
+        return Result(BOUNDED_OK, backend="native-poison", stats=dict(keys=len(a)),
+                      detail=f"two junk patterns in every xp.empty allocation: {len(a)} results / files / object members identical (GaH, GTH with p and d projectors, PBE, 2 k-points, Nspin=2)")
+
+    def replay(self, wit):
+        a, b = self.both()
+        d = compare_runs(a, b, bitwise=True)
+        return bool(d), dict(differences=d[:8])
+
+
+register(Obligation(name="C20.poison.two_patterns_same_state", prop=PROP, engine="B", bounded=True, run=PoisonDiff(),
+                    functions=["eminus.gth:init_gth_nonloc", "eminus.dft:*", "eminus.gga:*", "eminus.io.json:write_json"], budget={"quick": 400, "thorough": 900},
+                    doc="bounded: results, whole-object JSON files and array members do not depend on the junk that xp.empty allocations start with (integer arrays included)"))
+
+
+class History:
+    """BOUNDED: the target calculations give bit-identical energies, orbitals and seeded guesses in a fresh interpreter and after unrelated earlier
+    calculations in the same interpreter (no state left behind by an earlier calculation enters a result)."""
+
+    def both(self):
+        a = run_scenario("history", timeout=900, extra=dict(prelude=False))
+        b = run_scenario("history", timeout=900, extra=dict(prelude=True))
+        return a, b
+
+    def __call__(self, ob, tier, seed):
+        a, b = self.both()
+        if a.get("crash") or b.get("crash"):
+            return Result(UNDECIDED, backend="native", detail=f"scenario crashed: {(a.get('stderr') or b.get('stderr') or '')[-300:]}")
+        d = compare_runs(a, b, bitwise=True)
+        if d:
+            return Result(REFUTED, backend="native-interpreters", witness=dict(scenario="history"), replayed=True, replay_info=dict(differences=d[:8]),
+                          detail=f"results depend on what was calculated earlier in the same interpreter: {[x[0] for x in d[:6]]}")
+        return Result(BOUNDED_OK, backend="native-interpreters", stats=dict(keys=len(a)),
+                      detail=f"{len(a)} results identical bit for bit in a fresh interpreter and after four unrelated calculations (same seeds, larger bases, other cells / functionals)")
+
+    def replay(self, wit):
+        a, b = self.both()
+        d = compare_runs(a, b, bitwise=True)
+        return bool(d), dict(differences=d[:8])
+
+
+register(Obligation(name="C20.history.fresh_vs_used_interpreter", prop=PROP, engine="B", bounded=True, run=History(),
+                    functions=["eminus.utils:pseudo_uniform", "eminus.dft:guess_pseudo", "eminus.dft:guess_random", "eminus.scf:SCF.run", "eminus.operators:*"],
+                    budget={"quick": 400, "thorough": 900},
+                    doc="bounded: no state left by earlier calculations in the same interpreter (module-level caches, memoised kernels) enters a later result"))
 
 
 class Interpreters:
